@@ -964,7 +964,7 @@ pub fn run_batch<P: Property>(p: &P, opts: &Opts) -> BatchReport {
                         "pkgsim: run {} (sub {}) busy for more than {} ms; confirming alone in a child process",
                         run, sub, hang_ms
                     );
-                    match exec_in_child(p, &sc, std::time::Duration::from_millis(hang_ms * 3 + 1000)) {
+                    match exec_in_child(p, &sc, std::time::Duration::from_millis(confirm_ms(hang_ms))) {
                         ChildRes::TimedOut => {
                             report_hang(p, opts, run, sub, &sc, hang_ms);
                             crate::disk::cleanup_all();
@@ -1629,11 +1629,19 @@ fn write_abort_evidence<P: Property>(p: &P, opts: &Opts, what: &str) {
 
 /// A confirmed hang: shrink it in child processes (bounded), write the replay
 /// file and print the VIOLATION line.  The caller exits the process.
+/// How long a run that looked stuck may take alone in a child process before it is a
+/// `hang`: the same 20 s a replay allows (the slowest honest run takes about a second on
+/// tmpfs; on a disk-backed scratch directory under load a scale run has been seen to
+/// need more than 10 s).
+fn confirm_ms(hang_ms: u64) -> u64 {
+    (hang_ms * 3 + 1000).max(20_000)
+}
+
 fn report_hang<P: Property>(p: &P, opts: &Opts, run: u64, sub: u64, sc: &P::Sc, hang_ms: u64) {
     let sig = "hang";
     let class = p.classify(sc, &Violation::new("hang", String::new()));
     let known = load_known(&opts.root).unwrap_or_default();
-    let v = Violation::new("hang", format!("a single run did not finish within {} ms, alone in a child process", hang_ms * 3 + 1000));
+    let v = Violation::new("hang", format!("a single run did not finish within {} ms, alone in a child process", confirm_ms(hang_ms)));
     if let Some(k) = known_match(&known, p.id(), &v, &class) {
         // cannot continue the batch (a worker thread is stuck): report and stop
         println!("KNOWN-FINDING: property={} {} [signature=hang class={}]", p.id(), k.what, class);
